@@ -257,7 +257,8 @@ static void digest_body(const char *tag) {
     { out(",\"sigact\":\""); for (int i = 1; i < 65; i++) { struct sigaction sa; if (sigaction(i, NULL, &sa) == 0 && (sa.sa_handler != SIG_DFL || sa.sa_flags)) out("%d=%lx/%x.", i, (unsigned long)sa.sa_handler, sa.sa_flags); } out("\""); }
     /* state libc / the kernel keep for the process: locale, process name, priority, resource limits, interval timer, alarm */
     { char pn[32] = ""; prctl(PR_GET_NAME, pn, 0, 0, 0); struct itimerval itv; memset(&itv, 0, sizeof itv); getitimer(ITIMER_REAL, &itv);
-      out(",\"misc\":\"locale=%s;name=%s;nice=%d;itimer=%d", setlocale(LC_ALL, NULL), pn, getpriority(PRIO_PROCESS, 0), (itv.it_value.tv_sec || itv.it_value.tv_usec || itv.it_interval.tv_sec) ? 1 : 0);
+      int cfd = open("/dev/tty", O_RDONLY | O_NOCTTY | O_CLOEXEC); if (cfd >= 0) close(cfd);
+      out(",\"misc\":\"ctty=%d;locale=%s;name=%s;nice=%d;itimer=%d", cfd >= 0, setlocale(LC_ALL, NULL), pn, getpriority(PRIO_PROCESS, 0), (itv.it_value.tv_sec || itv.it_value.tv_usec || itv.it_interval.tv_sec) ? 1 : 0);
       static const int rls[] = { RLIMIT_NOFILE, RLIMIT_FSIZE, RLIMIT_STACK, RLIMIT_CORE, RLIMIT_AS, RLIMIT_NPROC, RLIMIT_CPU }; for (unsigned i = 0; i < sizeof rls / sizeof rls[0]; i++) { struct rlimit rl; getrlimit(rls[i], &rl); out(";rl%d=%llu/%llu", rls[i], (unsigned long long)rl.rlim_cur, (unsigned long long)rl.rlim_max); }
       out("\""); }
     /* stdio state of the caller's streams: orientation and buffering mode (settle in the warm-up calls when the library writes to them) */
@@ -433,6 +434,10 @@ int main(int argc, char **argv) {
         else if (!strcmp(tok[0], "digest")) digest(nt > 1 ? tok[1] : "");
         else if (!strcmp(tok[0], "umask")) umask(strtol(tok[1], NULL, 8));
         else if (!strcmp(tok[0], "sigmask")) { sigset_t s; sigemptyset(&s); sigaddset(&s, atoi(tok[1])); sigprocmask(SIG_BLOCK, &s, NULL); }
+        else if (!strcmp(tok[0], "dropctty")) { /* session leader WITHOUT a controlling terminal (a daemon after setsid): opening a terminal without O_NOCTTY would acquire it */
+            void (*oh)(int) = signal(SIGHUP, SIG_IGN); void (*oc)(int) = signal(SIGCONT, SIG_IGN); int t = open("/dev/tty", O_RDWR | O_CLOEXEC); if (t >= 0) { ioctl(t, TIOCNOTTY); close(t); } signal(SIGHUP, oh); signal(SIGCONT, oc); }
+        else if (!strcmp(tok[0], "ptyslave")) { /* a fresh pty whose slave path goes into the named environment variable; the master stays open here */
+            int m = posix_openpt(O_RDWR | O_NOCTTY | O_CLOEXEC); grantpt(m); unlockpt(m); fcntl(m, F_SETFL, O_NONBLOCK); char *nm = mkstr(tok[1]); setenv(nm, ptsname(m), 1); free(nm); }
         else if (!strcmp(tok[0], "raise")) { kill(getpid(), atoi(tok[1])); }      /* meant for a blocked signal: it stays pending */
         else if (!strcmp(tok[0], "sighandler")) { struct sigaction sa; memset(&sa, 0, sizeof sa); sa.sa_handler = handler_dummy; sigaction(atoi(tok[1]), &sa, NULL); }
         else if (!strcmp(tok[0], "openfds")) { /* occupy N descriptors (close-on-exec), so that whatever the library opens gets a number above N */
